@@ -182,6 +182,10 @@ def from_qlast(n, T):
     if isinstance(n, ql.Path):
         if len(n.steps) == 1 and isinstance(n.steps[0], ql.ObjectRef) and not n.steps[0].module and not n.partial \
                 and n.steps[0].itemclass is None:
+            if n.steps[0].name.upper() == 'THEN':
+                # THEN is an UNRESERVED keyword: the real grammar also accepts it as a name (`IF c THEN THEN - 1 …`);
+                # the model's token vocabulary has it as a keyword only
+                raise Unmodelled('unreserved keyword used as a name')
             return ('name', n.steps[0].name)
         raise Unmodelled('Path')
     if isinstance(n, ql.UnaryOp):
@@ -459,8 +463,7 @@ def run_tie(ctx, replay=False):
         keep.append(text)
         lines.append('parse ' + (' '.join(words) or '-'))
     model = ctx.driver('C01', lines)
-    hist = {'both-accept': 0, 'both-reject': 0, 'unmodelled': 0, 'bridge-backtracks-over-nonassoc-error': 0}
-    nonassoc_words = {b[1] for b in T['binops'] if b[5] == 'nonassoc'} | {'IS'}
+    hist = {'both-accept': 0, 'both-reject': 0, 'unmodelled': 0}
     for text, mline in zip(keep, model):
         try:
             a = qlparser.parse_fragment(text)
@@ -471,13 +474,7 @@ def run_tie(ctx, replay=False):
                 continue
         except Exception:
             real = 'none'
-        if real != mline and mline == 'none' and sum(1 for w in text.split() if w in nonassoc_words
-                                                      or w in ('LIKE', 'ILIKE', 'IN')) >= 2:
-            # yacc semantics (and the model): `%nonassoc` conflict = syntax error.  The bridge's LR driver
-            # instead discards a reduce that leads to such an error when a shift is also possible, and so
-            # accepts some of these inputs with another tree.  Not comparable through the bridge.
-            hist['bridge-backtracks-over-nonassoc-error'] += 1
-        elif real != mline:
+        if real != mline:
             n_dis += 1
             ctx.fail('tie-parser:' + text[:150], 'model parser and real parser disagree',
                      {'text': text, 'real': real, 'model': mline,
